@@ -24,6 +24,15 @@ func VerifNewExporter(conn net.Conn, obsDomainID uint32) *ExportingProcess {
 	}
 }
 
+// VerifNewExporterJSON is VerifNewExporter for ExporterInput.SendJSONRecord = true (with the default
+// JSON buffer length InitExportingProcess uses when none is given).
+func VerifNewExporterJSON(conn net.Conn, obsDomainID uint32) *ExportingProcess {
+	ep := VerifNewExporter(conn, obsDomainID)
+	ep.sendJSONRecord = true
+	ep.jsonBufferLen = defaultJSONBufferLen
+	return ep
+}
+
 func (ep *ExportingProcess) VerifSetSeq(v uint32) { atomic.StoreUint32(&ep.seqNumber, v) }
 func (ep *ExportingProcess) VerifSeq() uint32     { return atomic.LoadUint32(&ep.seqNumber) }
 
